@@ -411,8 +411,16 @@ fn gen_request(rng: &mut Rng, rich: bool) -> Value {
     3 => json!({"query": {"type":"match_all"}, "limit": 20, "return_stored": true}),
     4 => json!({"query": w, "limit": 2, "return_stored": true, "highlight_field": "body"}),
     5 => json!({"query": format!("{w} {w2}"), "limit": 3, "return_stored": false, "aggs": {"n": {"type":"value_count","field":"body"}}}),
-    6 => json!({"query": {"type":"match_all"}, "limit": 2, "return_stored": false, "page2": true}),
-    7 => json!({"query": {"type":"match_all"}, "limit": 10, "return_stored": true, "sort": [{"field":"year","order":"desc"},{"field":"tag"}]}),
+    6 => match rng.below(3) {
+      0 => json!({"query": {"type":"match_all"}, "limit": 2, "return_stored": false, "page2": true}),
+      1 => json!({"query": format!("{w} {w2} {}", rng.pick(&WORDS)), "limit": 10, "return_stored": false, "sort": [{"field":"_score"}]}),
+      _ => json!({"query": format!("{w} {w2}"), "limit": 10, "return_stored": false, "sort": [{"field":"_score","order":"asc"}]}),
+    },
+    7 => match rng.below(3) {
+      0 => json!({"query": {"type":"match_all"}, "limit": 10, "return_stored": true, "sort": [{"field":"year","order":"desc"},{"field":"tag"}]}),
+      1 => json!({"query": format!("{w} {w2}"), "limit": 10, "return_stored": true, "sort": [{"field":"tag"},{"field":"_score"}]}),
+      _ => json!({"query": format!("{w} {w2}"), "limit": 10, "return_stored": false, "sort": [{"field":"year","order":"asc"},{"field":"_score"},{"field":"tag","order":"desc"}]}),
+    },
     8 => json!({"query": w, "limit": 5, "return_stored": true, "filter": {"KeywordEq": {"field":"tag","value":"a"}}}),
     _ => json!({"query": {"type":"match_all"}, "limit": 5, "return_stored": false, "aggs": {"t": {"type":"terms","field":"tag"}}}),
   }
@@ -440,8 +448,21 @@ fn gen_cli_flags(rng: &mut Rng, rich: bool) -> Value {
   if rng.chance(1, 4) {
     f["fields"] = json!(*rng.pick(&["body", "body, body", " body "]));
   }
-  if rich && rng.chance(1, 2) {
-    f["sort"] = json!(*rng.pick(&["year:desc", "year:ASC,tag", " tag:Desc , year ", "year", ",year:asc,,", "year:up", "tag:"]));
+  // `--sort`: clauses with and without a direction (the core picks the per-field default when
+  // none is given: descending for `_score`, ascending otherwise), `_score` alone and as a
+  // tie-breaker, odd spacing and case, rejected directions
+  if rng.chance(1, 2) {
+    const ANY: [&str; 8] = ["_score", "_score:asc", "_score:desc", " _score ", "_score:DESC,", "_score:up", "_score: desc", ",_score"];
+    const RICH: [&str; 16] = [
+      "year:desc", "year:ASC,tag", " tag:Desc , year ", "year", ",year:asc,,", "year:up", "tag:", "year: desc",
+      "year:desc,_score", "year,_score", "tag,_score", "_score,year", "tag:desc,_score:asc", "tag,_score:desc", "year:asc,_score,tag", "_score,tag:desc",
+    ];
+    f["sort"] = if rich && rng.chance(2, 3) { json!(*rng.pick(&RICH)) } else { json!(*rng.pick(&ANY)) };
+    // several hits with different scores, so that the direction shows
+    if rng.chance(2, 3) {
+      f["query"] = json!(format!("{} {} {}", rng.pick(&WORDS), rng.pick(&WORDS), rng.pick(&WORDS)));
+      f["limit"] = json!(3 + rng.below(8));
+    }
   }
   if rng.chance(1, 4) {
     f["aggs"] = json!(*rng.pick(&["{\"n\":{\"type\":\"value_count\",\"field\":\"body\"}}", "  ", "not json"]));
